@@ -43,6 +43,15 @@ def check_nan_containment(run, it):
         except PyRaise as pr:
             ok = c02.exc_is(None, pr.exc, "IntegratorError", it)
             site = w.fault_hits[-1] if w.fault_hits else "?"
+            # the error kinds step() may raise are the ones EVERY integration transition declares a statistic for (plain IntegratorError,
+            # NonReversibleStepError, ConvergenceError); `diverging` is declared by the dynamic transitions only, which raise
+            # HamiltonianDivergenceError themselves -- a step() that raises it makes the Metropolis transitions return an undeclared statistic
+            div = c02.exc_is(None, pr.exc, "HamiltonianDivergenceError", it)
+            ctx.run.ob(f"integrators.{name}.step/raises-only-error-kinds-every-transition-declares", core.DISCHARGED if not div else core.FAILED, "pyvc",
+                       detail="" if not div else f"step() raises {exc_name(pr.exc)} (fault in {site}): MetropolisIntegrationTransition.sample then returns the statistic "
+                       "'diverging', which it does not declare; the sampler's write of it aborts the chain with KeyError",
+                       witness=None if not div else {"integrator": name, "fault": site},
+                       text="step() never raises HamiltonianDivergenceError (raised, and its statistic declared, only by the dynamic transitions)")
             ctx.run.ob((tag + "@" + site) if not ok else tag, core.DISCHARGED if ok else core.FAILED, "pyvc",
                        detail="" if ok else f"mici.errors.{exc_name(pr.exc)} raised by {site} (evaluated outside any solver try-block) escapes step(): "
                        "it is not an IntegratorError, so Transition.sample does not catch it and the chain aborts",
@@ -65,6 +74,7 @@ def run(run_, tier):
     c02.check_constrained_inner(run_, it2)
     c02.check_leapfrog_pairs(run_, it2)
     c02.check_midpoint_pair(run_, it2)
+    c02.check_substep_errors_propagate(run_, it2)
     check_nan_containment(run_, it2)
     from . import trans_model
     it3 = trans_model.c12_obligations(run_, tier)
